@@ -575,7 +575,8 @@ def run(F, rep, tier):
     import c07
     c07.guard_discipline(F, rep)
     tc.dropped_results(F, rep, "DROPPED-ERROR", ["sylt_compiler::typechecker::", "sylt_compiler::name_resolution::", "sylt_compiler::dependency::"])
-
+    import c07
+    c07.visit_loops_complete(F, rep)
 
 # every variable-valued field of the resolved AST, classified by reading name_resolution.rs: a *binder* introduces the
 # variable (the resolver fills it from new_var/push_var), a *use* refers to one found by lookup
@@ -594,8 +595,6 @@ BINDER_SITES = {
     ("Expression", "Blob", "self_var"): ("expression", "self_var"),
     ("CaseBranch", "CaseBranch", "variable"): ("expression", "branches[*].variable[*]"),
 }
-    import c07
-    c07.visit_loops_complete(F, rep)
 
 
 def binder_typed(F, rep, rule="BINDER-TYPED"):
